@@ -109,6 +109,16 @@ func runC16(w *W) {
 		w.Sig(fmt.Sprintf("deep:reqs%d", knobs.ReqsCap))
 	}
 	sch := genSchema(t, so)
+	if deep && t.Chance(1, 2, "deep.reqscap.exact") {
+		// an arena that the bitmaps of the first k levels of the chain fill exactly
+		maxID := 0
+		for _, f := range sch.Root.St.Fields {
+			if f.ID > maxID {
+				maxID = f.ID
+			}
+		}
+		knobs.ReqsCap = (1 + t.Intn(4, "deep.reqscap.k")) * (maxID/64 + 1) * 8
+	}
 	po := thrift.Options{UseDefaultValue: so.Defaults && t.Chance(2, 3, "parse.usedefault"), SetOptionalBitmap: mode != 2 && t.Chance(1, 2, "parse.optbitmap")}
 	desc := parseThrift(w, sch, po)
 	w.Logf("mode=%d flavour=%s parse options: %+v\nIDL:\n%s", mode, flavour, po, sch.IDL)
@@ -170,7 +180,9 @@ func c16J2T(w *W, sch *TSchema, desc *thrift.TypeDescriptor, val *TVal, wo write
 	ctx := context.Background()
 	style := &jsonStyle{t: t, WS: t.Intn(3, "js.ws"), Esc: t.Intn(2, "js.esc"), Num: 0}
 	js := style.render(val)
+	stopMarks = stopMarks[:0]
 	exp, experr := expectJ2T(nil, val, wo)
+	stops := append([]int{}, stopMarks...)
 	w.Logf("doc %d (%d bytes -> %d, experr=%d): %s", d, len(js), len(exp), experr, clip(js, 500))
 
 	// a failing conversion right before the checked one leaves FSM / bitmaps half-updated
@@ -183,7 +195,7 @@ func c16J2T(w *W, sch *TSchema, desc *thrift.TypeDescriptor, val *TVal, wo write
 	}
 	nenv := 1 + t.Intn(3, "nenv")
 	for k := 0; k < nenv; k++ {
-		env := drawJ2TEnv(w, len(exp), len(js))
+		env := drawJ2TEnvAt(w, exp, len(js), stops)
 		w.NextOp(fmt.Sprintf("j2t doc %d env %s", d, env))
 		facts := copyFacts(baseFacts)
 		facts["last_member_null"] = fmt.Sprint(lastMemberNull(val))
